@@ -15,12 +15,16 @@ TYPES = {'string': 'string', 'int32': 'int32', 'int64': 'int64', 'uint32': 'uint
 
 def shape_messages(i, s):
     rf = [dict(name='parent')]
+    def fld(name, kind):
+        if kind.startswith('opt_'):
+            return dict(name=name, type=TYPES[kind[4:]], optional=True)
+        return dict(name=name, type=TYPES[kind])
     if s['pt'] != 'absent':
-        rf.append(dict(name='page_token', type=TYPES[s['pt']]))
+        rf.append(fld('page_token', s['pt']))
     if s['ps'] != 'absent':
-        rf.append(dict(name='page_size', type=TYPES[s['ps']]))
+        rf.append(fld('page_size', s['ps']))
     if s['mr'] != 'absent':
-        rf.append(dict(name='max_results', type=TYPES[s['mr']]))
+        rf.append(fld('max_results', s['mr']))
     of = [dict(name='total', type='int32')]
     for f in s['layout']:
         k = f['kind']
